@@ -108,7 +108,7 @@ def rewrite(text, rnd):
             parts.append(ln2[prev:])
             for k, p in enumerate(parts):
                 last = k == len(parts) - 1
-                seg = (p if k == 0 else rnd.choice(['', '    ', '\t']) + p) + ('' if last else rnd.choice([' \\', ' \\ ', ' \\\t', '  \\']))
+                seg = (p if k == 0 else rnd.choice(['', '    ', '\t']) + p) + ('' if last else rnd.choice([' \\', ' \\ ', ' \\\t', '  \\', '\\', '\\  ', '\t\\']))
                 out.append(seg)
                 if not last and noise and rnd.random() < 0.3:
                     out.append(rnd.choice(['', '# inside a continued line', '   ']))
